@@ -1565,10 +1565,10 @@ impl Vm {
     #[inline(always)]
     fn call_native(&mut self, native: Gc<ObjNative>, arg_count: usize) -> Result<(), Error> {
         if !native.accepts_instances {
-            if let Value::ObjInstance(_) = self.peek(arg_count) {
+            if let Value::ObjInstance(_) | Value::ObjClass(_) = self.peek(arg_count) {
                 let err = error!(
                     ErrorKind::TypeError,
-                    "Built-in method '{}' cannot be used on an instance of a class declared in a program.",
+                    "Built-in method '{}' cannot be used on an instance of a class declared in a program or on a class.",
                     *native.name
                 );
                 return self.try_handle_error(err);
